@@ -94,7 +94,11 @@ Ratio == IF postCur[1] = 0 THEN <<0, 1>>
 Unexpected(e) == <<"ok", "M:event-order">>
 
 JudgeInit(e) ==
-  IF e.ev = "q" THEN (IF e.fin THEN <<"ok", "">> ELSE <<"ok", "X:start-outside-support">>)
+  IF e.ev = "q" THEN (IF e.fin THEN <<"ok", "">>
+                      \* the prior was evaluated as zero at a start the scenario KNOWS to be inside the support (e.g. on permuted
+                      \* coordinates): the code's mistake, not the harness's
+                      ELSE IF T.start_ok THEN <<"P:prior-of-the-given-start-is-positive", "">>
+                      ELSE <<"ok", "X:start-outside-support">>)
   ELSE IF e.ev = "end" /\ e.res # "ok" THEN <<"P:sample-raised", "">>
   ELSE Unexpected(e)
 
